@@ -112,6 +112,14 @@ structure Dyn where
   entered : List String := []            -- entry actions run in this process, in order
   deriving DecidableEq, Repr, Inhabited
 
+/-- an `on_output` event of a block to another block: `Event(dest, 'put')` (both flags set) or
+    `Event(dest, EventCond(etrue, efalse))` with `'put'` / `None` on either side -/
+structure Link where
+  dest : Nat
+  etrue : Bool       -- `'put'` is sent when the new output is truthy (else: no event)
+  efalse : Bool      -- `'put'` is sent when the new output is falsy (else: no event)
+  deriving DecidableEq, Repr, Inhabited
+
 structure Blk where
   key : String
   kind : Kind
@@ -119,6 +127,9 @@ structure Blk where
   sync : Bool
   expiration : Option Int                -- µs; `none` = never expires
   dyn : Dyn := {}
+  link : Option Link := none             -- (only the start-up `Circ.startL` follows links)
+  steps : Nat := 0                       -- `init_steps_completed`: 0, 1 (restore tried), 2 (fully handled)
+  restored : Bool := false               -- `_restore_state` was called with the saved state and accepted it
   deriving Repr, Inhabited
 
 /-! ## FSM -/
@@ -426,7 +437,7 @@ def readTs (s : Storage) : Option Time :=
 /-- pass 1: `init_from_persistent_data` of every block -/
 def pass1 (bs : List Blk) (store : Storage) (ts : Option Time) (cal : Val → Option Bool) (now : Time) : List Blk :=
   bs.map fun b => match load b store ts cal now with
-    | some d => { b with dyn := d }
+    | some d => { b with dyn := d, restored := true }
     | none => b
 
 /-- pass 2: the regular initialisation of the blocks that are not initialised yet, in order;
@@ -461,6 +472,103 @@ def Circ.start (c : Circ) (cal : Val → Option Bool) (now : Time) (mode : Start
       { c with now := now, phase := .running, ts := ts, startOk := true, blocks := bs, store := saveAll store bs }
     else
       { c with now := now, phase := .failed, ts := ts, startOk := true, blocks := bs, store := store }
+
+/-! ## start-up with events between the blocks (`on_output` of a block that gets its output during the
+start-up → `put` to another block, unconditionally or through an `EventCond`)
+
+Only links whose destination has no link itself are followed (no chains); anything else, and an
+exception raised by the destination's handler inside the sender's `set_output`, is outside the model
+(`ok := false`).  The sync save of the event wrapper is modelled WITH the repair
+`patches/C06-sync-save-on-uninitialized.diff`: a block that is not initialised is not saved (the
+unrepaired code let `save_persistent_state` remove the entry of such a block). -/
+
+structure IState where
+  blocks : List Blk
+  store : Storage
+  ok : Bool := true
+  deriving Repr, Inhabited
+
+/-- `if self.persistent and self.sync_state and self.is_initialized(): self.save_persistent_state()` -/
+def syncSave (s : Storage) (b : Blk) : Storage :=
+  if b.persistent && b.sync && b.dyn.inited then saveBlk s b else s
+
+/-- step 1 of `init_sblock`: `init_from_persistent_data` -/
+def init1 (ts : Option Time) (cal : Val → Option Bool) (now : Time) (S : IState) (j : Nat) : IState :=
+  match S.blocks[j]? with
+  | none => S
+  | some b =>
+    if b.steps != 0 then S else
+    match load b S.store ts cal now with
+    | some d => { S with blocks := S.blocks.set j { b with dyn := d, restored := true, steps := 1 } }
+    | none => { S with blocks := S.blocks.set j { b with steps := 1 } }
+
+/-- step 2 of `init_sblock`: `init_regular`, `init_from_value(initdef)` when still uninitialised -/
+def init2 (cal : Val → Option Bool) (now : Time) (S : IState) (j : Nat) : IState :=
+  match S.blocks[j]? with
+  | none => S
+  | some b =>
+    if b.steps != 1 then S else
+    if b.dyn.inited then { S with blocks := S.blocks.set j { b with steps := 2 } } else
+    match regularInit b.kind cal now with
+    | (d, true) => { S with blocks := S.blocks.set j { b with dyn := d, persistent := false, steps := 2 }, ok := false }
+    | (d, false) => { S with blocks := S.blocks.set j { b with dyn := d, steps := 2 } }
+
+/-- `AddonPersistence.event('put', value=v)` of block `j` during the start-up: the pending initialisation
+    steps first, then the handler, then the sync save -/
+def deliver (ts : Option Time) (cal : Val → Option Bool) (now : Time) (S : IState) (j : Nat) (v : Val) : IState :=
+  let S1 := init2 cal now (init1 ts cal now S j) j
+  match S1.blocks[j]? with
+  | none => { S1 with ok := false }
+  | some b =>
+    if b.link.isSome || b.steps == 0 then { S1 with ok := false } else      -- (`steps = 0` cannot happen here)
+    match blockEvent b.kind cal now b.dyn (.put (some v)) with
+    | (d, .ret _) =>
+      { S1 with blocks := S1.blocks.set j { b with dyn := d }, store := syncSave S1.store { b with dyn := d } }
+    | _ => { S1 with ok := false }
+
+/-- the `on_output` event of block `i` whose output has just been set -/
+def emit (ts : Option Time) (cal : Val → Option Bool) (now : Time) (S : IState) (i : Nat) : IState :=
+  match S.blocks[i]? with
+  | none => S
+  | some b =>
+    match b.link with
+    | none => S
+    | some l =>
+      if (if b.dyn.out.truthy then l.etrue else l.efalse) then
+        (if l.dest == i then { S with ok := false } else deliver ts cal now S l.dest b.dyn.out)
+      else S        -- the conditional event resolved to "no event": `event()` returns at once, nothing is saved
+
+def initedAt (S : IState) (i : Nat) : Bool :=
+  match S.blocks[i]? with
+  | some b => b.dyn.inited
+  | none => false
+
+/-- the turn of block `i` in `_init_sblocks_sync_1` -/
+def turn1 (ts : Option Time) (cal : Val → Option Bool) (now : Time) (S : IState) (i : Nat) : IState :=
+  if !S.ok || initedAt S i then S else
+  let S1 := init1 ts cal now S i
+  if initedAt S1 i then emit ts cal now S1 i else S1
+
+/-- the turn of block `i` in `_init_sblocks_sync_2` -/
+def turn2 (ts : Option Time) (cal : Val → Option Bool) (now : Time) (S : IState) (i : Nat) : IState :=
+  if !S.ok then S else
+  if initedAt S i then init2 cal now S i else
+  let S1 := init2 cal now S i
+  if initedAt S1 i then emit ts cal now S1 i else S1
+
+/-- `run_forever` up to the end of the initialisation, following the links -/
+def Circ.startL (c : Circ) (cal : Val → Option Bool) (now : Time) : Circ :=
+  if c.phase != .idle then c else
+  let ts := readTs c.store
+  let S0 : IState := { blocks := c.blocks, store := cleanUnused c.store c.blocks }
+  let idx := List.range c.blocks.length
+  let S1 := idx.foldl (turn1 ts cal now) S0
+  let S2 := idx.foldl (turn2 ts cal now) S1
+  if S2.ok && S2.blocks.all (·.dyn.inited) then
+    { c with now := now, phase := .running, ts := ts, startOk := true, blocks := S2.blocks,
+             store := saveAll S2.store S2.blocks }
+  else
+    { c with now := now, phase := .failed, ts := ts, startOk := true, blocks := S2.blocks, store := S2.store }
 
 def Circ.ready (c : Circ) : Bool := c.phase == .running
 
